@@ -13,8 +13,8 @@ var grouped = map[uint16]bool{1: true, 2: true, 3: true, 4: true, 5: true, 6: tr
 	13: true, 14: true, 15: true, 16: true, 17: true, 18: true, 77: true, 78: true, 79: true, 80: true, 83: true, 85: true, 86: true, 87: true}
 
 type node struct {
-	off     int   // offset of the IE header in the message
-	plen    int   // payload length
+	off     int // offset of the IE header in the message
+	plen    int // payload length
 	typ     uint16
 	parents []int // offsets of the enclosing IEs' headers (outermost first)
 }
